@@ -66,7 +66,9 @@ package appencryption
 //@   facet C10, C02, C09
 //@   ensures [C09:references-balanced] forall k *cachedCryptoKey :: owed(k) == old(owed(k))
 //@   requires wfE(e) && sk != nil && ekr != nil
-//@   modifies ext_calls, ms, owed, live
+//@   modifies ext_calls, ms, owed, live, cacheowned
+//@   ensures [C09:no-stray-secret] forall s securememory.Secret :: live(s) && !old(live(s)) ==> cacheowned(s) || (err == nil && s == result.secret)
+//@   ensures [C09:cache-ownership-is-kept] forall s securememory.Secret :: old(cacheowned(s)) ==> cacheowned(s)
 //@   ensures msGrows(old(ms), ms)
 //@   ensures (err == nil) == (result != nil)
 //@   ensures err == nil ==> result.created == old(ekr.Created) && result.secret != nil && valid(result.secret)
@@ -79,7 +81,9 @@ package appencryption
 //@ spec fn loaderExact(f ref) bool
 //@ funcspec keyLoader
 //@   names meta
-//@   modifies ms, ext_calls, owed, live
+//@   modifies ms, ext_calls, owed, live, cacheowned
+//@   ensures [C09:loader-leaves-no-stray-secret] forall s securememory.Secret :: live(s) && !old(live(s)) ==> cacheowned(s) || (err == nil && s == result.secret)
+//@   ensures [C09:cache-ownership-is-kept] forall s securememory.Secret :: old(cacheowned(s)) ==> cacheowned(s)
 //@   ensures [C09:loader-releases-what-it-takes] forall k *cachedCryptoKey :: owed(k) == old(owed(k))
 //@   ensures msGrows(old(ms), ms)
 //@   ensures (err == nil) == (result != nil)
@@ -90,7 +94,9 @@ package appencryption
 //@ iface keyCacher.GetOrLoad
 //@   names id, loader
 //@   param loader keyLoader
-//@   modifies owed, live
+//@   modifies owed, live, cacheowned
+//@   ghost ensures forall s securememory.Secret :: live(s) && !old(live(s)) ==> cacheowned(s) || (err == nil && s == result.CryptoKey.secret)
+//@   ghost ensures forall s securememory.Secret :: old(cacheowned(s)) ==> cacheowned(s)
 //@   ghost ensures err == nil ==> owed(result) == old(owed(result)) + 1
 //@   ghost ensures forall k *cachedCryptoKey :: k != result || err != nil ==> owed(k) == old(owed(k))
 //@   requires [C02,C14:loader-fits-id] loaderFor(loader, id.ID) && (id.Created != 0 ==> loaderExact(loader))
@@ -103,7 +109,9 @@ package appencryption
 //@ iface keyCacher.GetOrLoadLatest
 //@   names id, loader
 //@   param loader keyLoader
-//@   modifies owed, live
+//@   modifies owed, live, cacheowned
+//@   ghost ensures forall s securememory.Secret :: live(s) && !old(live(s)) ==> cacheowned(s) || (err == nil && s == result.CryptoKey.secret)
+//@   ghost ensures forall s securememory.Secret :: old(cacheowned(s)) ==> cacheowned(s)
 //@   ghost ensures err == nil ==> owed(result) == old(owed(result)) + 1
 //@   ghost ensures forall k *cachedCryptoKey :: k != result || err != nil ==> owed(k) == old(owed(k))
 //@   requires [C02,C14:loader-fits-id] loaderFor(loader, id)
@@ -216,7 +224,8 @@ package appencryption
 //@   ensures [C09:references-balanced] forall k *cachedCryptoKey :: owed(k) == old(owed(k))
 //@   safety C07
 //@   requires wfE(e)
-//@   modifies ext_calls, ms, owed, live
+//@   modifies ext_calls, ms, owed, live, cacheowned
+//@   ensures [C09:cache-ownership-is-kept] forall s securememory.Secret :: old(cacheowned(s)) ==> cacheowned(s)
 //@   ensures [C02:ms-only-grows] msGrows(old(ms), ms)
 //@   ensures [C02:error-returns-nil] (err == nil) == (result != nil)
 //@   ensures [C02,C14:backed] err == nil ==> result.secret != nil && valid(result.secret) && ms[meta.ID][result.created]
@@ -298,7 +307,9 @@ package appencryption
 //@   facet C02, C14, C09
 //@   ensures [C09:references-balanced] forall k *cachedCryptoKey :: owed(k) == old(owed(k))
 //@   requires wfE(e)
-//@   modifies ext_calls, ms, owed, live
+//@   modifies ext_calls, ms, owed, live, cacheowned
+//@   ensures [C09:unsaved-key-released] ret(GenerateKey, 1, 1) == nil && (err != nil || result != ret(GenerateKey, 1, 0)) ==> !live(ret(GenerateKey, 1, 0).secret)
+//@   ensures [C09:cache-ownership-is-kept] forall s securememory.Secret :: old(cacheowned(s)) ==> cacheowned(s)
 //@   ensures [C02:ms-only-grows] msGrows(old(ms), ms)
 //@   ensures [C02:error-returns-nil] (err == nil) == (result != nil)
 //@   ensures [C02,C14:backed] err == nil ==> result.secret != nil && valid(result.secret) && ms[ikidOf(e.partition)][result.created]
@@ -307,7 +318,8 @@ package appencryption
 //@   facet C02, C14, C09
 //@   ensures [C09:references-balanced] forall k *cachedCryptoKey :: owed(k) == old(owed(k))
 //@   requires wfE(e)
-//@   modifies ext_calls, ms, owed, live
+//@   modifies ext_calls, ms, owed, live, cacheowned
+//@   ensures [C09:cache-ownership-is-kept] forall s securememory.Secret :: old(cacheowned(s)) ==> cacheowned(s)
 //@   ensures [C02:ms-only-grows] msGrows(old(ms), ms)
 //@   ensures [C02:error-returns-nil] (err == nil) == (result != nil)
 //@   ensures [C02,C14:backed] err == nil ==> result.secret != nil && valid(result.secret) && (id == ikidOf(e.partition) ==> ms[id][result.created])
@@ -331,6 +343,7 @@ package appencryption
 //@   opt no-frame
 //@   requires wfE(e)
 //@   ensures [C09:references-balanced] forall k *cachedCryptoKey :: owed(k) == old(owed(k))
+//@   ensures [C09:no-stray-secret] forall s securememory.Secret :: live(s) && !old(live(s)) ==> cacheowned(s) || s == ret(GetOrLoadLatest, 1, 0).CryptoKey.secret
 //@   ensures [C09:drk-secret-released] ret(GenerateKey, 1, 1) == nil ==> !live(ret(GenerateKey, 1, 0).secret)
 //@   ensures [C02:error-returns-nil] (err == nil) == (result != nil)
 //@   ensures [C02,C14:record-well-formed] err == nil ==> result.Key != nil && result.Key.ParentKeyMeta != nil && result.Key.ParentKeyMeta.ID == ikidOf(e.partition)
@@ -360,7 +373,8 @@ package appencryption
 // Set stores the entry; other entries may leave (eviction) but none is added or changed.
 //@ iface cache.Interface[string,appencryption.cacheEntry].Set
 //@   names key, value
-//@   modifies cdom(this), cval(this), owed
+//@   modifies cdom(this), cval(this), owed, cacheowned(value.key.CryptoKey.secret)
+//@   ghost ensures cacheowned(value.key.CryptoKey.secret)
 //@   ghost ensures forall k *cachedCryptoKey :: k != value.key && !(old(cdom(this)[key]) && old(cval(this)[key].key) == k) ==> owed(k) == old(owed(k))
 //@   ghost ensures old(cdom(this)[key]) && old(cval(this)[key].key) == value.key ==> owed(value.key) == old(owed(value.key))
 //@   ghost ensures !(old(cdom(this)[key]) && old(cval(this)[key].key) == value.key) ==> owed(value.key) == old(owed(value.key)) - 1
@@ -403,7 +417,9 @@ package appencryption
 //@   facet C09, C02, C14, C07, C08
 //@   safety C07
 //@   opt no-frame
-//@   ensures [C09:returns-exactly-one-reference] err == nil ==> owed(result) == old(owed(result)) + 1
+//@   ensures [C09:no-stray-secret] forall s securememory.Secret :: live(s) && !old(live(s)) ==> cacheowned(s) || (err == nil && s == result.CryptoKey.secret)
+//@   ensures [C09:cache-ownership-is-kept] forall s securememory.Secret :: old(cacheowned(s)) ==> cacheowned(s)
+//@   ensures [C09,C08:returns-exactly-one-reference] err == nil ==> owed(result) == old(owed(result)) + 1
 //@   ensures [C09:no-other-reference-moves] forall k *cachedCryptoKey :: k != result || err != nil ==> owed(k) == old(owed(k))
 //@   param loader keyLoader
 //@   requires c != nil && c.rw == 0 && loader != nil
@@ -417,7 +433,9 @@ package appencryption
 //@   facet C09, C02, C14, C07, C08
 //@   safety C07
 //@   opt no-frame
-//@   ensures [C09:returns-exactly-one-reference] err == nil ==> owed(result) == old(owed(result)) + 1
+//@   ensures [C09:no-stray-secret] forall s securememory.Secret :: live(s) && !old(live(s)) ==> cacheowned(s) || (err == nil && s == result.CryptoKey.secret)
+//@   ensures [C09:cache-ownership-is-kept] forall s securememory.Secret :: old(cacheowned(s)) ==> cacheowned(s)
+//@   ensures [C09,C08:returns-exactly-one-reference] err == nil ==> owed(result) == old(owed(result)) + 1
 //@   ensures [C09:no-other-reference-moves] forall k *cachedCryptoKey :: k != result || err != nil ==> owed(k) == old(owed(k))
 //@   param loader keyLoader
 //@   requires c != nil && c.rw == 0 && loader != nil
@@ -431,7 +449,9 @@ package appencryption
 //@   facet C09, C02, C14, C07
 //@   safety C07
 //@   opt no-frame
-//@   ensures [C09:returns-exactly-one-reference] err == nil ==> owed(result) == old(owed(result)) + 1
+//@   ensures [C09:no-stray-secret] forall s securememory.Secret :: live(s) && !old(live(s)) ==> cacheowned(s) || (err == nil && s == result.CryptoKey.secret)
+//@   ensures [C09:cache-ownership-is-kept] forall s securememory.Secret :: old(cacheowned(s)) ==> cacheowned(s)
+//@   ensures [C09,C08:returns-exactly-one-reference] err == nil ==> owed(result) == old(owed(result)) + 1
 //@   ensures [C09:no-other-reference-moves] forall k *cachedCryptoKey :: k != result || err != nil ==> owed(k) == old(owed(k))
 //@   param loader keyLoader
 //@   requires loader != nil && loaderFor(loader, id.ID)
@@ -443,7 +463,9 @@ package appencryption
 //@   facet C09, C02, C14, C07
 //@   safety C07
 //@   opt no-frame
-//@   ensures [C09:returns-exactly-one-reference] err == nil ==> owed(result) == old(owed(result)) + 1
+//@   ensures [C09:no-stray-secret] forall s securememory.Secret :: live(s) && !old(live(s)) ==> cacheowned(s) || (err == nil && s == result.CryptoKey.secret)
+//@   ensures [C09:cache-ownership-is-kept] forall s securememory.Secret :: old(cacheowned(s)) ==> cacheowned(s)
+//@   ensures [C09,C08:returns-exactly-one-reference] err == nil ==> owed(result) == old(owed(result)) + 1
 //@   ensures [C09:no-other-reference-moves] forall k *cachedCryptoKey :: k != result || err != nil ==> owed(k) == old(owed(k))
 //@   param loader keyLoader
 //@   requires loader != nil && loaderFor(loader, id)
@@ -468,6 +490,8 @@ package appencryption
 // =====================================================================================================
 
 //@ ghost field owed(*cachedCryptoKey) int
+// cacheowned(s): secret s belongs to a key that has been handed to a key cache (the cache releases it on eviction / Close)
+//@ ghost field cacheowned(securememory.Secret) bool default false
 //@ spec fn owedSame(a map[ref]int, b map[ref]int) bool = forall k ref :: a[k] == b[k]
 
 //@ func (*cachedCryptoKey).Close
@@ -476,6 +500,7 @@ package appencryption
 //@   requires c != nil && c.refs != nil && c.CryptoKey != nil
 //@   modifies owed(c), live(c.CryptoKey.secret)
 //@   ghost ensures owed(c) == old(owed(c)) - 1
+//@   ghost ensures live(c.CryptoKey.secret) ==> old(live(c.CryptoKey.secret))
 
 //@ func newCachedCryptoKey
 //@   facet C09, C08
